@@ -17,7 +17,7 @@ TRUSTED_BASE = [
     "hand-written Lean model of the clp handlers and hooks (lean/Sif/Model/Clp), tied by state-for-state differential execution against the real keeper",
     "Go harness + line protocol + driver parser; x/bank, baseapp cache-context discipline (modelled)",
 ]
-ASSUMPTIONS = ["margin disabled for every pool, liquidity protection inactive, removal lock period 0 in the correspondence histories",
+ASSUMPTIONS = ["removal queue disabled and removal lock period 0 in the correspondence histories (pools may be margin-enabled and carry liabilities / custody; liquidity protection on or off, any threshold asset)",
                "map iterations modelled in sorted order (order-independence is C09)"]
 UNPROVED = [
     "clp.EndBlocker is proved solvent under EndBlockOK: LPPD block rate in [0,1] (enforced by ValidateBasic) and, in distribute mode, every rewarded pool has a provider record; the latter is an invariant of reachable states (the last provider can never withdraw 100%: ErrPoolTooShallow) argued in DESIGN.md, not proved; without it the code records a reward on the pool while the coins are burned",
